@@ -18,6 +18,9 @@ def build(seed):
         others = sorted((la.lanelet_id for la in lls[1:]), reverse=True)
         lls[0].successor = list(others)
         lls[0].predecessor = list(others)
+    if seed % 2 == 0:
+        # a scenario that came from a file of the older supported format version carries that version in its id
+        sc.scenario_id.scenario_version = "2018b"
     return sc, pps
 
 
